@@ -951,6 +951,16 @@ class Engine:
         if not (isinstance(k, Z) and k.kind == "int" and z3.is_int_value(z3.simplify(k.t))):
             raise Unsupported("symbolic list index")
         i = z3.simplify(k.t).as_long()
+        if i >= 0 and o.lower is not None:
+            # a non-negative index counts from the BOTTOM: with a non-empty (symbolic) lower part it reads from there
+            outs = []
+            below = st.fork(o.lower[1], "list-index:in-lower-part")
+            if self.feasible(below.pc):
+                outs.append((below, Opaque("lower-element", z3.FreshConst(U, "lower_element"))))
+            top = st.fork(z3.Not(o.lower[1]), "list-index:lower-part-empty")
+            if self.feasible(top.pc):
+                outs.append((top, o.items[i]) if i < len(o.items) else (top, self.raise_(top, "IndexError", origin="list index")))
+            return outs
         if -len(o.items) <= i < len(o.items):
             return [(st, o.items[i])]
         if o.lower is None:
